@@ -558,6 +558,10 @@ def run(cmd, cwd, env=None, timeout=600, strace_root=None, cpu_limit=None, stdin
         r.signal = -p.returncode
         if r.signal in (signal.SIGXCPU, signal.SIGKILL) and cpu_limit and not r.timed_out:
             r.cpu_killed = True
+    if "no space left on device" in r.err or "no space left on device" in r.out:
+        # the machine ran out of disk: whatever the child reported is about the environment, not about mockery (inconclusive everywhere)
+        r.timed_out = True
+        r.tracer_failed = True
     if trace_file:
         # the tracer itself can fail under load (ptrace(PTRACE_LISTEN): Input/output error, attach races): the run then says nothing
         # about the tracee. Such a run is reported like a watchdog firing, i.e. every check treats it as inconclusive.
